@@ -226,6 +226,9 @@ fn gen03(t: &mut Tape, tier: Tier) -> Scenario {
         if b.payload.len() >= 16384 {
             flags |= 1 << 15; // 3-byte VLI
         }
+        if b.content.len() >= (1 << 21) {
+            flags |= 1 << 16; // 4-byte VLI (uncompressed size)
+        }
     }
     sc.set_i("flags", flags);
     sc.set_i("nblocks", plan.blocks.len() as u64);
@@ -244,11 +247,14 @@ fn gen03(t: &mut Tape, tier: Tier) -> Scenario {
 
 fn exec03(sc: &Scenario, ctx: &mut Ctx) -> Vec<Violation> {
     let f = sc.i("flags");
+    if sc.i("nblocks") >= 16_384 {
+        ctx.stats.hit("probe.16384_or_more_blocks_index_count_needs_three_bytes");
+    }
     if sc.i("nblocks") >= 128 {
         ctx.stats.hit("probe.128_or_more_blocks_index_count_needs_two_bytes");
     }
     ctx.stats.max("max_blocks_in_one_file", sc.i("nblocks"));
-    let names: [&'static str; 16] = [
+    let names: [&'static str; 17] = [
         "probe.zero_blocks",
         "probe.one_block",
         "probe.several_blocks",
@@ -265,6 +271,7 @@ fn exec03(sc: &Scenario, ctx: &mut Ctx) -> Vec<Violation> {
         "probe.block_padding_3",
         "probe.vli_2_bytes",
         "probe.vli_3_bytes",
+        "probe.vli_4_bytes_block_of_2MiB_or_more",
     ];
     for (i, n) in names.iter().enumerate() {
         if f & (1 << i) != 0 {
@@ -277,7 +284,7 @@ fn exec03(sc: &Scenario, ctx: &mut Ctx) -> Vec<Violation> {
 pub static C03: SimpleProp = SimpleProp {
     id: "C03",
     level: "exploration",
-    rule: "one evaluation = one xz_decompress of a reference-built single-stream file: 0-6 blocks (now and then 127-200 tiny ones, so that the index record count needs two bytes), check None/CRC32/CRC64, optional size fields present/absent, block header padded up to the 1024-byte maximum, LZMA2 payloads of every shape (so block padding 0-3 and VLIs of 1-3 bytes occur), arbitrary LZMA2 dictionary-size property; benign short reads/writes; output compared online with the concatenated block models; non-trivial = non-empty output; distinct by (scenario, event log) hash",
+    rule: "one evaluation = one xz_decompress of a reference-built single-stream file: 0-6 blocks (now and then 127-200 tiny ones, rarely 16383-16385, so that the index record count needs two / three bytes; in the big plans now and then a block of 2-3 MiB whose sizes need four-byte integers), check None/CRC32/CRC64, optional size fields present/absent, block header padded up to the 1024-byte maximum, LZMA2 payloads of every shape (so block padding 0-3 and VLIs of 1-4 bytes occur), arbitrary LZMA2 dictionary-size property; benign short reads/writes; output compared online with the concatenated block models; non-trivial = non-empty output; distinct by (scenario, event log) hash",
     runs_quick: 150_000,
     runs_thorough: 12_000_000,
     both_profiles: false,
